@@ -54,7 +54,7 @@ func ckksAdapter(w *circ.CKKS, logSlots int) *adapter[complex128] {
 	isReal := w.Spec.CI
 	z := circ.NoiseOf(p.Parameters)
 	a := &adapter[complex128]{
-		scheme: "ckks", params: p.Parameters, rows: 1, n: n, logN: logSlots,
+		scheme: "ckks", world: w.Spec.String(), params: p.Parameters, rows: 1, n: n, logN: logSlots,
 		maxLevel: p.MaxLevel(), maxLvlP: p.MaxLevelP(), sk: w.Sk,
 		f: field[complex128]{zero: 0,
 			add: func(x, y complex128) complex128 { return x + y },
@@ -121,8 +121,9 @@ func ckksAdapter(w *circ.CKKS, logSlots int) *adapter[complex128] {
 		}
 		return lintrans.LinearTransformation(lt), gals, nil
 	}
+	tmpl := ckks.NewEvaluator(p, nil)
 	a.newEval = func(evk rlwe.EvaluationKeySet) (ltEval, func(rlwe.EvaluationKeySet) ltEval) {
-		base := ckks.NewEvaluator(p, evk)
+		base := tmpl.ShallowCopy().WithKey(evk) // own, zeroed buffers
 		return ckksEval{ckkslt.NewEvaluator(base)}, func(e2 rlwe.EvaluationKeySet) ltEval {
 			return ckksEval{ckkslt.NewEvaluator(base.WithKey(e2))}
 		}
